@@ -75,9 +75,20 @@ package procbuilder
 //@         vm.InputsRecv[*], vm.OutputsRecv[*], vm.Extra_states[*], vm.Mach.*
 //@   frameonly
 
+// Every pending deferred instruction is called (at least) once by a successful round, whatever else the VM is doing
+// (evalcount counts the calls made through each function value), and the pending set only shrinks: what stays
+// pending was pending before, under the same name and with the same closure.
+//@ props C09 C04 C02
 //@ func (vm *VM) ExecuteDeferredInstructions() error
 //@   requires vm != nil ==> vm.Mach != nil
 //@   ensures newmap: vm != nil ==> fresh(vm.DeferredInstructions) || vm.DeferredInstructions == old(vm.DeferredInstructions)
+//@   ensures evaluated: result == nil ==> (forall k string :: haskey(old(vm.DeferredInstructions), k) ==> evalcount(old(vm.DeferredInstructions[k])) >= old(evalcount(vm.DeferredInstructions[k])) + 1)
+//@   ensures kept: result == nil ==> (forall k string :: haskey(vm.DeferredInstructions, k) ==> old(haskey(vm.DeferredInstructions, k)) && vm.DeferredInstructions[k] == old(vm.DeferredInstructions[k]))
+//@   ensures rejected: result != nil ==> vm == nil || old(vm.DeferredInstructions) == nil
+//@   loop 1: invariant seen: forall k string :: visited(k) ==> evalcount(vm.DeferredInstructions[k]) >= old(evalcount(vm.DeferredInstructions[k])) + 1
+//@   loop 1: invariant mono: forall f int :: evalcount(f) >= old(evalcount(f))
+//@   loop 1: invariant sub: forall k string :: haskey(notCompleted, k) ==> haskey(vm.DeferredInstructions, k) && notCompleted[k] == vm.DeferredInstructions[k]
+//@   loop 1: invariant same: vm.DeferredInstructions == old(vm.DeferredInstructions) && (forall k string :: haskey(vm.DeferredInstructions, k) == old(haskey(vm.DeferredInstructions, k)) && vm.DeferredInstructions[k] == old(vm.DeferredInstructions[k]))
 //@   assigns vm.DeferredInstructions, vm.Pc, vm.LastPc, vm.DelayCounter, vm.Registers[*], vm.Memory[*], vm.Inputs[*], vm.Outputs[*], vm.InputsValid[*], vm.OutputsValid[*],
 //@           vm.InputsRecv[*], vm.OutputsRecv[*], vm.Extra_states[*]
 //@   reads vm.*, vm.Registers[*], vm.Memory[*], vm.Inputs[*], vm.Outputs[*], vm.InputsValid[*], vm.OutputsValid[*],
@@ -85,6 +96,7 @@ package procbuilder
 //@   loop 1: modifies vm.Pc, vm.LastPc, vm.DelayCounter, vm.Registers[*], vm.Memory[*], vm.Inputs[*], vm.Outputs[*], vm.InputsValid[*], vm.OutputsValid[*],
 //@           vm.InputsRecv[*], vm.OutputsRecv[*], vm.Extra_states[*], notCompleted[*]
 //@   frameonly
+//@ props C09
 
 //@ interface Opcode method Disassembler(arch *Arch, instr string) (string, error)
 //@   requires arch != nil
@@ -107,6 +119,7 @@ package procbuilder
 //@ func (vm *VM) Step(psc *SimConfig) (string, error)
 //@   requires vm != nil && vm.Mach != nil && vm.SimDelayArray == nil
 //@   ensures newmap: fresh(vm.DeferredInstructions) || vm.DeferredInstructions == old(vm.DeferredInstructions)
+//@   ensures evaluated: result1 == nil ==> (forall k string :: old(haskey(vm.DeferredInstructions, k)) ==> evalcount(old(vm.DeferredInstructions[k])) >= old(evalcount(vm.DeferredInstructions[k])) + 1)
 //@   assigns vm.DeferredInstructions, vm.Pc, vm.LastPc, vm.DelayCounter, vm.Registers[*], vm.Memory[*], vm.Inputs[*], vm.Outputs[*], vm.InputsValid[*], vm.OutputsValid[*],
 //@           vm.InputsRecv[*], vm.OutputsRecv[*], vm.Extra_states[*], vm.DeferredInstructions[*]
 //@   reads vm.*, vm.Registers[*], vm.Memory[*], vm.Inputs[*], vm.Outputs[*], vm.InputsValid[*], vm.OutputsValid[*],
